@@ -4764,7 +4764,7 @@ class ParseCtx:
             return ActionNode(SetToStr(result, targeted))
         elif not is_append:
             if targeted.type == OutputStorageType.RAW:
-                raise IllegalParseTree("Raw types only support append expressions, did you mean +=?", sub_expr)
+                raise IllegalParseTree("Raw types only support append expressions, did you mean +=?", stmt.children[1])
             return ActionNode(SetTo(self._parse_integer_expr(stmt.children[1], targeted), targeted))
         else:
             raise IllegalParseTree("Only string and raw outputs support append expressions, did you mean =?", stmt.children[0])
